@@ -6,7 +6,7 @@ import SlipVerif.Driver.Util
    object   : n | t | i<dec> | y<hex-name> | c<codepoint> | (<obj>.<obj>)
    sequence : L[<obj>,…] (list) | V[<obj>,…] (vector) | S[<obj>,…] (string, characters only)
    function : car cdr char-code 1+ neg mod2 upcase evenp oddp plusp null consp eqto:<obj> ltthan:<int>
-              eql equal < <= > >= = char= char< sameparity + - cons list max
+              eq eql equal < <= > >= = char= char< sameparity + - cons list max
    fields   : item new seq seq2 seqs(= s;s;…) start end start1 end1 start2 end2 key test testnot pred
               count fromend init rtype fn result
    reply    : ok <obj> | ok <sequence> | err bounds|type|arg | bad-request <why>
@@ -108,6 +108,7 @@ def parseFn (s : String) : Option Fn :=
   | ["consp"] => some .consp
   | ["eqto", o] => (parseObjStr o).map .eqTo
   | ["ltthan", n] => n.toInt?.map .ltThan
+  | ["eq"] => some .eq
   | ["eql"] => some .eql
   | ["equal"] => some .equal
   | ["<"] => some .lt
